@@ -1,8 +1,8 @@
 (* C04 — concurrent clients: every interleaving is equivalent to a serial order.  Statements only.
    run_sched fuel sched (start s rpcs): the RPCs run as threads from state s; scheduling points are datastore primitive
    calls and lock acquisitions; `sched` is ANY list of thread ids (a disabled choice falls back to the first enabled). *)
-From VZ Require Import Base.Prelude Model.Metadata Model.Service Model.ServiceEq Model.Conc
-                       Proofs.ConcP Proofs.DeadlockP.
+From VZ Require Import Base.Prelude Base.XFloat Model.Metadata Model.Service Model.ServiceEq Model.Conc
+                       Proofs.ConcP Proofs.DeadlockP Proofs.IsolationP.
 
 (* no two trials with one id: for any number of concurrent calls, any schedule, any prefix *)
 Theorem C04_unique_ids_all_interleavings : forall prefix rpcs fuel sched,
@@ -22,6 +22,34 @@ Theorem C04_no_deadlock : forall s rpcs fuel sched,
   let c := run_sched fuel sched (start s rpcs) in all_finished c = false -> first_enabled c <> None.
 Proof. exact no_deadlock. Qed.
 Print Assumptions C04_no_deadlock.
+
+(* DIFFERENT STUDIES NEVER INTERFERE.  Two calls of any kind (except creation / deletion / listing of studies) that address
+   different studies, started in any state, end with the same replies, the same owners and the same stored data under
+   EVERY pair of complete schedules - hence every interleaving equals both serial orders.  (Every datastore primitive
+   reads and writes only the node of its study; each thread is simulated step by step by the same thread running alone.) *)
+Theorem C04_different_studies_any_schedule : forall s a b k1 k2 fuel sched fuel' sched',
+  rpc_local (fst a) = Some k1 -> rpc_local (fst b) = Some k2 -> k1 <> k2 ->
+  let c := run_sched fuel sched (start s [a; b]) in
+  let c' := run_sched fuel' sched' (start s [a; b]) in
+  all_finished c = true -> all_finished c' = true ->
+  results c = results c' /\ owners (c_state c) = owners (c_state c') /\
+  forall k, get_node k (nodes (c_state c)) = get_node k (nodes (c_state c')).
+Proof. exact different_studies_any_schedule. Qed.
+Print Assumptions C04_different_studies_any_schedule.
+
+(* non-vacuity: a suggestion on one study interleaved call by call with a completion on another one finishes, and so do
+   the two serial schedules (kernel-evaluated) *)
+Example C04_different_studies_instance :
+  let prefix := [(CreateStudy 1 1 false (mkS SS_ACTIVE [(1%N, true)] []), PFail EOther);
+                 (CreateStudy 1 2 false (mkS SS_ACTIVE [(1%N, true)] []), PFail EOther);
+                 (SuggestTrials (1, 2)%N 1 1, PDeliver [5%N] [] [])] in
+  let s := run_all prefix init_state in
+  let a := (SuggestTrials (1, 1)%N 1 2, PDeliver [7%N; 8%N; 9%N] [] []) in
+  let b := (CompleteTrial (1, 2)%N 1 [(1%N, Fin 3)] false, PFail EOther) in
+  all_finished (run_sched 400 [0; 1; 0; 1; 0; 1; 0; 1; 0; 1] (start s [a; b])) = true /\
+  all_finished (run_sched 400 (repeat 0 60) (start s [a; b])) = true /\
+  all_finished (run_sched 400 (repeat 1 60) (start s [a; b])) = true.
+Proof. vm_compute. repeat split. Qed.
 
 (* FULL statement: every complete interleaving ends like some serial order (same results, same stored state).
    Refuted on the model of the code as it is: the immutability guard is checked before the study lock is taken, so an
